@@ -509,8 +509,23 @@ def c12(ctx):
 
 @check('C13')
 def c13(ctx):
+    def many_at_one_level(rnd):
+        """14-24 alternatives most of which meet the same level (library sorts are unstable above 12 elements: the order of acceptance within a
+        level must still be the search order)"""
+        req = gen.large_request(rnd, 'satisfactionHeuristic', lo=14, hi=24)
+        req['criteria'] = req['criteria'][:2]
+        cids = [c['id'] for c in req['criteria']]
+        for a in req['knownAlternatives']:
+            a['criteria'] = {k: float(rnd.randint(3, 9)) for k in cids}
+        for c in req['criteria']:
+            c['type'] = 'gain'
+            c.pop('valuesRange', None)
+        req['methodParameters']['function'] = 'thresholds'
+        req['methodParameters']['params'] = {'thresholds': [{k: rnd.choice([2.0, 5.0, 8.0]) for k in cids}, {k: 1.0 for k in cids}]}
+        return req
     return method_check(
-        ctx, 'C13', [(2, gen_method('satisfactionHeuristic')), (1, (lambda rnd: gen.biased_request(rnd, method='satisfactionHeuristic', prob_mix=False)))], 300, 6000,
+        ctx, 'C13', [(2, gen_method('satisfactionHeuristic')), (1, (lambda rnd: gen.biased_request(rnd, method='satisfactionHeuristic', prob_mix=False))),
+                     (0.3, many_at_one_level)], 300, 6000,
         'random satisfaction requests: currentChoice absent / considered / known-only, explicit thresholds and both generated series, '
         'levels nobody meets, cost criteria, shuffled order, now and then 13-22 alternatives', agree_col='agree', also_cols=('C13order',))
 
@@ -1440,17 +1455,21 @@ def history_runs(ctx, nh, modes=('shared', 'fresh'), allc=None, cur_in=None):
     answer of a process that has served nothing else; with mode 'shared' the same decoded Go values are reused across calls"""
     rnd = ctx.rnd
     others = [g for g in (allc, cur_in) if g] + [gen.any_request]
-    for _ in range(nh):
-        if rnd.random() < 0.6:
+    nfix = max(3, nh // 10)
+    for hi in range(nh):
+        if hi < nfix or rnd.random() < 0.6:
             # requests of one method with different (optional) parameters: what one call sets must not leak into the next
-            m = rnd.choice(gen.METHODS + ['electreIII', 'electreIII'])
+            m = 'electreIII' if hi < nfix else rnd.choice(gen.METHODS + ['electreIII', 'electreIII'])
             pool = [gen.any_request(rnd, m) for _ in range(rnd.randint(2, 3))]
+            if hi < nfix:
+                # always present: one problem with 4-6 alternatives under the default distillation function and under one that ties everything
+                pool = [gen.electre_request(rnd, n_alts=rnd.choice([4, 5, 6]), n_crits=rnd.choice([2, 3])) for _ in range(2)]
             if m == 'electreIII':
-                if rnd.random() < 0.5:   # the same problem with and without its own distillation function
+                if hi < nfix or rnd.random() < 0.5:   # the same problem with and without its own distillation function
                     pool[1] = json.loads(json.dumps(pool[0]))
                 pool[0]['methodParameters'].pop('electreDistillation', None)
-                pool[1]['methodParameters']['electreDistillation'] = rnd.choice([{'a': 0, 'b': 0.05}, {'a': -0.25, 'b': 0.5}, {'a': 0, 'b': 0.125},
-                                                                                 {'a': 0, 'b': 1.0}, {'a': 0, 'b': 1.0}, {'a': 0, 'b': 0.0}])
+                pool[1]['methodParameters']['electreDistillation'] = {'a': 0, 'b': 1.0} if hi < nfix else rnd.choice(
+                    [{'a': 0, 'b': 0.05}, {'a': -0.25, 'b': 0.5}, {'a': 0, 'b': 0.125}, {'a': 0, 'b': 1.0}, {'a': 0, 'b': 1.0}, {'a': 0, 'b': 0.0}])
             pool = [gen.add_biases(rnd, r, prob_mix=False) if rnd.random() < 0.3 else r for r in pool]
         elif rnd.random() < 0.45:
             # a method whose listener extends its parameters for an added criterion (Choquet capacities over-weighted), served repeatedly:
@@ -1472,7 +1491,7 @@ def history_runs(ctx, nh, modes=('shared', 'fresh'), allc=None, cur_in=None):
         else:
             pool = [rnd.choice(others)(rnd) for _ in range(rnd.randint(1, 3))]
         seq = [rnd.choice(pool) for _ in range(rnd.randint(2, 6))]
-        if len(pool) > 1 and rnd.random() < 0.7:
+        if len(pool) > 1 and (hi < nfix or rnd.random() < 0.7):
             # every request both before and after every other one
             order = list(pool)
             rnd.shuffle(order)
